@@ -1,10 +1,11 @@
 SPECIFICATION Spec
 CONSTANTS Callers = {c1, c2}
- MaxTick = 3
- MaxRot = 2
- MaxAtt = 3
- FreshKey = TRUE
- MaxJunk = 0
- Dev = {"GenIdOutsideLock"}
+ MaxTick = 2
+ MaxRot = 1
+ MaxAtt = 2
+ FreshKey = FALSE
+ MaxJunk = 2
+ Dev = {"AbortContainerOnItemError"}
 INVARIANTS WireIdsIncrease SeqNoRules OwnResult AcceptedNeverResent SaltPersisted NoStallNotify NoStallDeliver
+PROPERTIES AllDone LoopKeepsReading
 VIEW view
